@@ -189,7 +189,23 @@ def grow_container(spec, on_stage, made_flows=None):
 
     container = RapidProContainer(groups=listed_groups(spec))
     flow_objs, node_objs, camp_objs = {}, {}, {}
-    for s in range(spec["stages"]):
+    first = 0
+    if spec["mode"] == "dict":
+        # the first stage is an imported export (from_dict), the later ones edit it through the API
+        container = RapidProContainer.from_dict(build_dict(stage_subspec(spec, 0)))
+        for i, fc in zip([i for i, f in enumerate(spec["flows"]) if stage_of(f) == 0], container.flows):
+            flow_objs[i] = fc
+            if made_flows is not None:
+                made_flows.append(fc.uuid)
+            old = [j for j, nd in enumerate(spec["flows"][i]["nodes"]) if stage_of(nd) == 0]
+            assert len(old) == len(fc.nodes)
+            for j, node in zip(old, fc.nodes):
+                node_objs[i, j] = node
+        for i, camp in zip([i for i, c in enumerate(spec["campaigns"]) if stage_of(c) == 0], container.campaigns):
+            camp_objs[i] = camp
+        on_stage(0, container)
+        first = 1
+    for s in range(first, spec["stages"]):
         for i, f in enumerate(spec["flows"]):
             if stage_of(f) > s:
                 continue
@@ -505,7 +521,7 @@ def staged_request(spec):
     stages, pre_all = [], []
     for s in range(spec["stages"]):
         pre = []
-        if spec.get("add_flow", True):
+        if spec.get("add_flow", True) and not (spec["mode"] == "dict" and s == 0):  # stage 0 of a dict history is from_dict
             pre = [["flow", f["name"], f["uuid"] or flow_placeholder(i)] for i, f in enumerate(spec["flows"]) if stage_of(f) == s]
         pre_all += pre
         stages.append({"pre": pre, "container": object_container(spec, upto=s, kept_below=s), "renders": spec["stage_renders"][s]})
@@ -754,7 +770,7 @@ def run_real(spec, req):
                 parser.parse_all_triggers(container)
             elif spec["mode"] == "sheets":
                 container = ContentIndexParser(_mem_reader(build_sheets(spec))).parse_all()
-            elif spec["mode"] == "dict":
+            elif spec["mode"] == "dict" and not spec.get("stages"):
                 container = RapidProContainer.from_dict(build_dict(spec))
             elif spec.get("stages"):
                 res["out_stage"] = []
@@ -835,6 +851,24 @@ def late_explicit(spec):
         if u:
             first_ex[kind, name] = min(first_ex.get((kind, name), stg), stg)
     return sorted(k for k, stg in first_ex.items() if stg > first[k])
+
+
+def stage_subspec(spec, upto):
+    """the content a staged history holds after stage `upto`, as a plain (unstaged) spec"""
+    sp = copy.deepcopy(spec)
+    sp["flows"] = [f for f in sp["flows"] if stage_of(f) <= upto]
+    for f in sp["flows"]:
+        f["nodes"] = [nd for nd in f["nodes"] if stage_of(nd) <= upto]
+        for nd in f["nodes"]:
+            if nd["t"] == "actions":
+                nd["actions"] = [a for a in nd["actions"] if stage_of(a) <= upto]
+            elif nd["t"] == "split":
+                nd["cases"] = [g for g, cs in zip(nd["cases"], case_stages(nd)) if cs <= upto]
+    sp["campaigns"] = [c for c in sp["campaigns"] if stage_of(c) <= upto]
+    for c in sp["campaigns"]:
+        c["events"] = [e for e in c["events"] if stage_of(e) <= upto]
+    sp["triggers"] = [t for t in sp["triggers"] if stage_of(t) <= upto]
+    return twin_of(sp)
 
 
 def twin_of(spec):
@@ -1061,6 +1095,7 @@ def check_case(spec, req, model, real, twin=None):
             info["twin_compared"] = real["error"] is None
     if real["error"] and real["error"]["type"].startswith("other:"):
         viol.append({"what": "unexpected exception", "error": real["error"]})
+    info["n_outs"] = len(real["outs"])
     info["expected_error"] = bool(reasons)
     info["expect"] = sorted({r[0] for r in reasons}) or ["ok"]
     return ties, viol, info
@@ -1346,8 +1381,9 @@ def gen_staged(rng: random.Random):
     uuid arrives after the name was validated (`late_explicit`), a late has_group case equal to
     an existing one (add_choice only updates the destination then)."""
     spec = None
+    mode = rng.choice(["api", "api", "dict"])   # dict: an imported export (from_dict) edited through the API afterwards
     for _ in range(20):
-        spec = gen_spec(rng, "api", avoid_known=False)
+        spec = gen_spec(rng, mode, avoid_known=False)
         if spec["flows"] and any(nd["t"] in ("actions", "split") for f in spec["flows"] for nd in f["nodes"]):
             break
     k = rng.choice([2, 2, 3])
@@ -1766,7 +1802,7 @@ CORPUS = [
     {"mode": "api", "add_flow": False, "blocks": {}, "groups": [["G1", "u-group-G1-a"]], "group_meta": [{"query": "age > 18"}],
      "stages": 3, "stage_renders": [1, 1, 1], "renders": 3,
      "flows": [{"name": "F1", "uuid": "u-flow-F1-a", "stage": 0, "nodes": [
-         {"t": "split", "stage": 0, "cases": [["G1", None], ["G2", None], ["G2", "u-group-G2-a"]], "case_stages": [1, 1, 2]},
+         {"t": "split", "stage": 0, "cases": [["G1", None], ["G2", None], ["G2", "u-group-G2-a"], ["G4", None]], "case_stages": [1, 1, 1, 2]},
          {"t": "actions", "stage": 0, "actions": [{"t": "add", "stage": 0, "groups": [["G3", None]]},
                                                    {"t": "remove", "stage": 2, "groups": [["G2", None], ["G4", None]]}]},
          {"t": "enter", "stage": 1, "flow": ["F2", None]}]},
@@ -1776,6 +1812,19 @@ CORPUS = [
                    {"name": "c1", "group": ["G2", None], "by_name": False, "stage": 1, "events": []}],
      "triggers": [{"flow": ["F1", None], "groups": [], "exclude": [["G3", None]], "stage": 0},
                   {"flow": ["F2", None], "groups": [["G4", None]], "exclude": [], "stage": 2}]},
+    # an imported export (from_dict) is rendered, then edited through the API: a case and a group action
+    # added to the imported router / node, a flow, a campaign and a trigger added to the container
+    {"mode": "dict", "add_flow": True, "blocks": {}, "groups": [["G1", "u-group-G1-a"], ["G2", None]], "group_meta": [{"count": 7}, {}],
+     "stages": 2, "stage_renders": [2, 2], "renders": 4,
+     "flows": [{"name": "F1", "uuid": "u-flow-F1-a", "stage": 0, "nodes": [
+         {"t": "split", "stage": 0, "cases": [["G1", None], ["G3", None], ["G2", None]], "case_stages": [0, 1, 1]},
+         {"t": "actions", "stage": 0, "actions": [{"t": "add", "stage": 0, "groups": [["G2", None]]},
+                                                   {"t": "add", "stage": 1, "groups": [["G3", "u-group-G3-a"], ["G1", None]]}]}]},
+               {"name": "F2", "uuid": None, "stage": 1, "nodes": [{"t": "enter", "stage": 1, "flow": ["F1", None]},
+                                                                   {"t": "split", "stage": 1, "cases": [["G3", None]], "case_stages": [1]}]}],
+     "campaigns": [{"name": "c0", "group": ["G3", None], "by_name": True, "stage": 1, "events": [{"type": "F", "flow": ["F2", None], "stage": 1}]}],
+     "triggers": [{"flow": ["F1", None], "groups": [["G1", None]], "exclude": [], "stage": 0},
+                  {"flow": ["F2", None], "groups": [["G3", None]], "exclude": [["G2", None]], "stage": 1}]},
     # two different explicit uuids, the second one on a case added after a render: must be rejected
     {"mode": "api", "add_flow": True, "blocks": {}, "groups": [], "group_meta": [], "campaigns": [], "triggers": [],
      "stages": 2, "stage_renders": [1, 1], "renders": 2,
@@ -1818,11 +1867,13 @@ def _fold(ck, specs, results, stream):
         if spec["mode"] == "sheets" and spec["groups"]:
             ck.count(f"{stream}.sheets.parsed_into_container_listing_groups")
         if spec.get("stages"):
-            ck.count(f"{stream}.api.staged")
+            ck.count(f"{stream}.{spec['mode']}.staged")
             for k, v in staged_strata(spec).items():
                 ck.count(k, v)
             if info.get("twin_compared"):
                 ck.count("staged.last_render_compared_with_the_one_go_twin")
+            if info["error"] and info.get("n_outs"):
+                ck.count("staged.rejected_at_a_later_stage_after_successful_renders")
             if info.get("late_explicit_rejected"):
                 ck.count("staged.late_explicit_uuid_rejected_as_coded")
         ck.count(f"renders={spec['renders']}")
@@ -1855,7 +1906,7 @@ def run(ck: core.Check):
         "0/0.1/0.5), rendered 1-3 times; the containers may list groups before validation (from_dict, "
         "RapidProContainer(groups=…), also as the target the sheets are parsed into), a third of those groups carrying "
         "query/status/system/count; in a quarter of the cases two or three different group names are bound to one "
-        "explicit uuid (renamed group / obj_id equal to another group's uuid), the listed ones mostly with attributes; one case in seven is a STAGED history: an api container built in 2-3 stages and rendered 1-2 times after every stage, each flow / node / group action / has_group case / campaign / event / trigger added at a random stage not before its parent (so routers, nodes, flows, campaigns that were already rendered get more content), every render compared with the model (`uuid.staged`: Uuid.runStage) and judged by the statement, the last render compared with the render of the same content built in one go up to invented uuids; non-trivial = at least two reference occurrences; distinct = distinct specs"
+        "explicit uuid (renamed group / obj_id equal to another group's uuid), the listed ones mostly with attributes; one case in seven is a STAGED history: a container built through the API (two thirds) or imported with from_dict and then edited through the API (one third) in 2-3 stages and rendered 1-2 times after every stage, each flow / node / group action / has_group case / campaign / event / trigger added at a random stage not before its parent (so routers, nodes, flows, campaigns that were already rendered get more content), every render compared with the model (`uuid.staged`: Uuid.runStage) and judged by the statement, the last render compared with the render of the same content built in one go up to invented uuids; non-trivial = at least two reference occurrences; distinct = distinct specs"
     )
     ck.assumptions = [
         "Python dict keeps insertion order and the position of an updated key (modelled by dset; exercised by the tie on the order of the top-level group list)",
@@ -1866,7 +1917,7 @@ def run(ck: core.Check):
         "trigger_unknown_flow_rejected is proved for the reading the code implements (flow name not in flow_dict = neither defined nor mentioned by any action/campaign/obj_id); the full reading (not DEFINED) is false on the unchanged tree: Lean negative witness trigger_unknown_flow_rejected_full_false, known finding F-C06-b",
         "sheet rows merged into an existing node (same node_name) record nothing at parse time (modelled as coded: only their Group object carries the obj_id); merging of start_new_flow / split rows does not exist in the code",
         "nested insert_as_block (a block inserting a block) is neither generated nor modelled (each level gets its own throw-away container in the code)",
-        "staged histories (content added between two renders) are generated through the public API only (add_flow, add_node, add_action, add_choice, add_campaign, add_event, add_trigger on an api-built container); removing or editing objects between renders is not explored",
+        "staged histories (content added between two renders) are generated through the public API only (add_flow, add_node, add_action, add_choice, add_campaign, add_event, add_trigger on an api-built or from_dict-imported container; sheets parsed into a container that was rendered before are not); removing or editing objects between renders is not explored",
         "a name whose FIRST explicit uuid arrives after the name was validated (rendered with an invented uuid), e.g. a flow defined by add_flow after a rendered flow referred to it: the unchanged code rejects the history with ValueError(multiple uuids); the statement does not say what should happen, modelled as coded, exercised by two corpus shapes (rejection tolerated), kept out of the random stream",
     ]
     if not core.DRIVER_BIN.exists():
@@ -1928,7 +1979,7 @@ def run(ck: core.Check):
                  "sheets.merged_obj_id_after_same_group_without_or_other_obj_id",
                  "groups.listed_with_attributes", "alias.case_with_two_names_on_one_explicit_uuid",
                  "alias.listed_group_with_attributes_shares_its_uuid_with_another_referenced_name",
-                 "main.sheets.parsed_into_container_listing_groups", "main.api.staged",
+                 "main.sheets.parsed_into_container_listing_groups", "main.api.staged", "main.dict.staged",
                  "staged.has_group_case_added_to_a_router_rendered_before",
                  "staged.has_group_case_added_to_a_router_rendered_before.with_explicit_uuid",
                  "staged.group_action_added_to_a_node_rendered_before", "staged.node_added_to_a_flow_rendered_before",
